@@ -376,8 +376,14 @@ def _model_apply(fr, m, fn):
     if q == 'tangermeme.deep_lift_shap._register_hooks':
         ctx.ghost['dls_hooks'] = True
         ctx.events.append(('hooks_registered',))
-        if m.attrs.get('may_raise') and ctx.choose(2) == 0:
-            raise SymRaise('RuntimeError', site='register-hooks')
+        if m.attrs.get('may_raise'):
+            # registration may fail half-way with an ordinary exception or be interrupted (a BaseException
+            # that `except Exception` does not catch)
+            k = ctx.choose(3)
+            if k == 0:
+                raise SymRaise('RuntimeError', site='register-hooks')
+            if k == 1:
+                raise SymRaise('KeyboardInterrupt', site='register-hooks')
         return m
     if q == 'tangermeme.deep_lift_shap._clear_hooks':
         ctx.ghost['dls_hooks'] = False
